@@ -94,6 +94,8 @@ func jobsFor(prop, tier string) []Job {
 				// (>= 16 elements on one level need >= 31) — duplicated / lost elements among ties show
 				hn := pick(40, 70)
 				add("heapx", fmt.Sprintf("%s.%s.flatties.n%d", k, c, hn), 50, map[string]string{"c": k, "cmp": c}, map[string]int{"n": hn, "pmax": 1})
+				// many DISTINCT priorities under non-monotone histories (family.go heapChurnJob)
+				add("heapchurn", fmt.Sprintf("%s.%s.churn.u%d", k, c, pick(48, 96)), 20, map[string]string{"c": k, "cmp": c}, map[string]int{"u": pick(48, 96)})
 				// three mutually tied, distinguishable elements on one level need >= 6 elements with 3 ids
 				add("heap", fmt.Sprintf("%s.%s.ties.n7", k, c), 40, map[string]string{"c": k, "cmp": c}, map[string]int{"n": 7, "pmax": 1, "ids": 3, "jsonlen": 3})
 				// large heaps, skewed: all elements of the greatest priority except at most two smaller ones
@@ -554,6 +556,13 @@ func bidiJobs(prop string, q bool, add func(kind, id string, w int, s map[string
 	}
 	add("kvfamily", fmt.Sprintf("treebidimap.family.u%d", fu), fu*fu, map[string]string{"c": "treebidimap"}, map[string]int{"u": fu})
 	add("kvfamily", fmt.Sprintf("hashbidimap.family.u%d", fu), fu, map[string]string{"c": "hashbidimap"}, map[string]int{"u": fu})
+	for _, c := range []string{"nat", "rev"} {
+		cu := 48
+		if !q {
+			cu = 96
+		}
+		add("churn", fmt.Sprintf("treebidimap.%s.churn.u%d", c, cu), cu*4, map[string]string{"c": "treebidimap", "cmp": c, "vcmp": c}, map[string]int{"u": cu})
+	}
 	for _, kc := range []string{"nat", "rev", "coarse"} {
 		for _, vc := range []string{"nat", "rev", "coarse"} {
 			uu := u
